@@ -357,6 +357,39 @@ func c13Round(r *Run, rng *gen.Rng, st *c13Stats, corpus []string, roundSize, sw
 			sc := mk(sw, "stress", desc)
 			cases = append(cases, sc)
 		}
+		// std library variants: the program imports a std library, the installation is odd
+		if rng.Chance(6) {
+			sw := &gen.GenWorld{Main: "main.tsh", Shape: "std", Closure: []string{"main.tsh"}}
+			sw.Set("main.tsh", []byte(rng.Pick([]string{"import \"strings\"\nprint(strings.Contains(\"ab\", \"a\"))\n", "import (\n\t\"os\"\n\ts \"strings\"\n)\nprint(os.Shell())\n", "import \"strings.tsh\"\n", "import \"../std/strings\"\n", "import \"strings/\"\n"})))
+			sv := mk(sw, "stdvar", "")
+			files := []simrt.FileSpec{}
+			exeDir := path.Dir(sv.c.World.Exe)
+			variant := rng.Pick([]string{"no-std-dir", "std-is-a-file", "lib-is-a-directory", "lib-empty", "lib-garbage", "exe-in-root", "std-ok"})
+			for _, f := range sv.c.World.Files {
+				inStd := strings.HasPrefix(f.Path, exeDir+"/std/")
+				switch {
+				case inStd && (variant == "no-std-dir" || variant == "std-is-a-file"):
+					continue
+				case inStd && variant == "lib-is-a-directory":
+					files = append(files, simrt.FileSpec{Path: f.Path + "/inner", Data: []byte("x")})
+					continue
+				case inStd && variant == "lib-empty":
+					f.Data = nil
+				case inStd && variant == "lib-garbage":
+					f.Data, _ = gen.Corrupt(rng, f.Data)
+				}
+				files = append(files, f)
+			}
+			if variant == "std-is-a-file" {
+				files = append(files, simrt.FileSpec{Path: exeDir + "/std", Data: []byte("not a directory")})
+			}
+			sv.c.World.Files = files
+			if variant == "exe-in-root" {
+				sv.c.World.Exe = "/tsh"
+			}
+			sv.meta.Corrupt = "std:" + variant
+			cases = append(cases, sv)
+		}
 		// path variants
 		if rng.Chance(12) {
 			pv := mk(gw, "pathvar", "")
